@@ -41,10 +41,10 @@ Qed.
 
 Lemma generator_primitive : Generator_primitive_stmt.
 Proof.
-  intros p k f g H F A N. destruct (fg_parts p k f g H) as [Hp [Hk [HN [_ [_ Ho]]]]].
+  intros p k f g H. cbv zeta. destruct (fg_parts p k f g H) as [Hp [Hk [HN [_ [_ Ho]]]]].
   pose proof (C09.ProofsIrr.brute_order_spec p (gpoly p k g) (fpoly p k f) (p ^ k - 1)) as S.
-  cbv zeta in S. fold F in S. fold A in S. rewrite Ho in S.
-  split; [subst N; lia|].
+  cbv zeta in S. rewrite Ho in S.
+  split; [lia|].
   destruct S as [[E _]|[m [E [Hm [H1 H2]]]]]; [lia|].
-  assert (m = N) by (subst N; lia). subst m. split; assumption.
+  assert (Em : m = Z.to_nat (p ^ k - 1)) by lia. subst m. split; assumption.
 Qed.
